@@ -336,6 +336,8 @@ func runC14(c *Ctx) {
 			}
 		}
 		c.check(has, "collect-ctx", instrPos(callerSel), "select has <-ctx.Done()", "the collection does not watch the caller's context: the call can outlive it")
+		// D49: a good reply that arrived before the context ended is not lost to the coin toss between the two cases
+		checkCtxCasePollsResultIn(c, f)
 	} else {
 		c.fail("collect-ctx", f.Pos(), "no collecting select")
 	}
@@ -347,11 +349,97 @@ func runC14(c *Ctx) {
 		// the success return: returns the received message with nil error
 		var accept *ssa.Return
 		var msg ssa.Value
+		// accepting returns inside the ctx.Done() case of the collecting select (D49: a reply that arrived before the
+		// context ended still counts) are checked on their own below
+		var ctxBody *ssa.BasicBlock
+		if callerSel != nil {
+			if cases, _, okd := decodeSelect(callerSel); okd {
+				for _, cs := range cases {
+					if cs.State.Dir == types.RecvOnly && isCtxDone(cs.State.Chan) && cs.Body != nil {
+						ctxBody = cs.Body
+					}
+				}
+			}
+		}
+		var ctxAccepts []*ssa.Return
 		for _, r := range returnsOf(f) {
 			rv := returnedValues(r)
 			if isNilConst(rv[1]) && !isNilConst(rv[0]) {
+				if ctxBody != nil && ctxBody.Dominates(r.Block()) {
+					ctxAccepts = append(ctxAccepts, r)
+					continue
+				}
 				accept, msg = r, rv[0]
 			}
+		}
+		for _, r := range ctxAccepts {
+			// after the context ended only a definitive answer that had already arrived is returned: the message was
+			// polled from the result channel, came without error, and every way into the return is rcode NOERROR / NXDOMAIN
+			m := returnedValues(r)[0]
+			polled, errNil := false, false
+			for _, g := range guardsOfInstr(r) {
+				if cm, ok := g.asCmp(); ok && isNilConst(cm.Y) && cm.Op == token.EQL && cm.X.Type().String() == "error" {
+					errNil = true
+				}
+			}
+			eachInstr(f, func(in ssa.Instruction) {
+				if sel, ok := in.(*ssa.Select); ok && !sel.Blocking && ctxBody.Dominates(sel.Block()) && instrDominates(sel, r) {
+					// the same result channel the collecting select receives from (the variable's cell is loaded again)
+					for _, st := range sel.States {
+						if st.Dir != types.RecvOnly {
+							continue
+						}
+						for _, cst := range callerSel.States {
+							if cst.Dir == types.RecvOnly && !isCtxDone(cst.Chan) && (cst.Chan == st.Chan || sameLoadedPlace(cst.Chan, st.Chan)) {
+								polled = true
+							}
+						}
+					}
+				}
+			})
+			onlyGood := true
+			var walkConds func(cond ssa.Value, truth bool, depth int)
+			walkConds = func(cond ssa.Value, truth bool, depth int) {
+				if ph, isPhi := cond.(*ssa.Phi); isPhi && truth && depth < 3 {
+					for i, e := range ph.Edges {
+						if b, isC := constBool(e); isC {
+							if b {
+								if pif, ok := terminator(ph.Block().Preds[i]).(*ssa.If); ok {
+									walkConds(pif.Cond, ph.Block().Preds[i].Succs[0] == ph.Block(), depth+1)
+								} else {
+									onlyGood = false
+								}
+							}
+							continue
+						}
+						walkConds(e, true, depth+1)
+					}
+					return
+				}
+				cm, ok := (guard{Cond: cond, Truth: truth}).asCmp()
+				if !ok || cm.Op != token.EQL {
+					onlyGood = false
+					return
+				}
+				k, isF := loadedField(cm.X)
+				n, isC := constInt(cm.Y)
+				if !isF || !strings.HasSuffix(k, "dns.MsgHdr.Rcode") || !isC || (n != 0 && n != 3) {
+					onlyGood = false
+					return
+				}
+				if base := fieldBase(cm.X.(*ssa.UnOp).X); base != m && !sameLoadedPlace(base, m) {
+					onlyGood = false
+				}
+			}
+			for _, pr := range r.Block().Preds {
+				if iff, ok := terminator(pr).(*ssa.If); ok {
+					walkConds(iff.Cond, pr.Succs[0] == r.Block(), 0)
+				} else {
+					onlyGood = false
+				}
+			}
+			c.check(polled && errNil && onlyGood, "accept-rule:after-ctx", instrPos(r), "after the context ended only an already arrived NOERROR / NXDOMAIN reply is returned",
+				"the context case returns a reply that was not polled from the result channel, came with an error, or is not a NOERROR / NXDOMAIN answer")
 		}
 		if accept == nil {
 			c.anchorMissing("accepting return in Forward.exchange")
